@@ -42,8 +42,13 @@ def build_field(c):
     else:
         proj, crval = c["family"], (float(rng.choice([0.003, 359.997, rng.uniform(0, 360)])), rng.uniform(-60, 60))
     bmin, br, bpa = c["beam"]
-    w, hdr = skyimg.make_header(proj, crval, ((cols + 1) / 2.0 + rng.uniform(-10, 10), (rows + 1) / 2.0 + rng.uniform(-10, 10)),
-                                c["scale"], (rows, cols), (bmin * br, 1.0 / br, bpa))
+    cpx, cpy = (cols + 1) / 2.0 + rng.uniform(-10, 10), (rows + 1) / 2.0 + rng.uniform(-10, 10)
+    if c.get("far"):
+        # the image lies `far` degrees from the reference point (a cut-out of a wide field): the local pixel scale and
+        # orientation differ from those at CRPIX
+        ang = rng.uniform(0, 2 * math.pi)
+        cpx, cpy = cpx + c["far"] / s * math.cos(ang), cpy + c["far"] / s * math.sin(ang)
+    w, hdr = skyimg.make_header(proj, crval, (cpx, cpy), c["scale"], (rows, cols), (bmin * br, 1.0 / br, bpa))
     beam = (hdr["BMAJ"], hdr["BMIN"], hdr["BPA"])
     bmaj_px = bmin * br
     truth = []
